@@ -150,6 +150,45 @@ func runCatalog(id string, toks []string) (res string) {
 						}
 					}
 				}
+				// ... and the declared range is in force: a value beyond it is clamped (afterwards: the accessories are thrown away)
+				for _, s := range a.Services {
+					for _, c := range s.Characteristics {
+						for _, probe := range []struct {
+							bound interface{}
+							delta float64
+						}{{c.MaxValue, 1000}, {c.MinValue, -1000}} {
+							var lim float64
+							switch b := probe.bound.(type) {
+							case int:
+								lim = float64(b)
+							case float64:
+								lim = b
+							default:
+								continue
+							}
+							func() {
+								defer func() { recover() }()
+								if c.Format == characteristic.FormatFloat {
+									c.UpdateValue(lim + probe.delta)
+								} else {
+									c.UpdateValue(int(lim + probe.delta))
+								}
+							}()
+							var got float64
+							switch v := c.Value.(type) {
+							case int:
+								got = float64(v)
+							case float64:
+								got = v
+							default:
+								continue
+							}
+							if (probe.delta > 0 && got > lim) || (probe.delta < 0 && got < lim) {
+								vals = append(vals, fmt.Sprintf("%s=!unclamped(%v_beyond_%v)", c.Type, got, lim))
+							}
+						}
+					}
+				}
 				out = append(out, fmt.Sprintf("%s.%d:%d:%d:%s:%s:%d", name, vi, len(a.Services), n, strings.Join(svcs, "/"), strings.Join(vals, ","), a.Type))
 			}
 			add("New", accessory.New(info, accessory.TypeOther))
